@@ -406,11 +406,18 @@ func DumpEqual(a, b []KVPair) bool {
 // the write is always complete when Overtake returns. fired: read did reach its k-th
 // read; inside: the write finished before the reader continued.
 func (d *RecDB) Overtake(k int, grace time.Duration, read, write func()) (fired, inside bool) {
+	return d.OvertakeAt(func(n int, _ []byte) bool { return n == k }, grace, read, write)
+}
+
+// OvertakeAt is Overtake with the position chosen by a predicate over (index of the reader's
+// point read, key read): the write starts right after the first read for which at() is true
+// (positioning calls of iterators report a nil key).
+func (d *RecDB) OvertakeAt(at func(n int, key []byte) bool, grace time.Duration, read, write func()) (fired, inside bool) {
 	me := goid()
 	var cnt atomic.Int64
 	done := make(chan struct{})
-	d.SetOnRead(func([]byte) {
-		if goid() != me || cnt.Add(1) != int64(k) {
+	d.SetOnRead(func(key []byte) {
+		if goid() != me || !at(int(cnt.Add(1)), key) {
 			return
 		}
 		d.SetOnRead(nil)
